@@ -48,6 +48,13 @@ def random_record(rng, fmt):
     lat = round(rng.uniform(-90, 90), 2)
     dep = round(rng.uniform(0, 99.9), 1)
     mag = round(rng.uniform(1.0, 9.0), 2)
+    # exactly zero is a legitimate value of every numeric field (surface events, the equator, the prime meridian)
+    if rng.random() < 0.12:
+        dep = 0.0
+    if rng.random() < 0.06:
+        lat = 0.0
+    if rng.random() < 0.06:
+        lon = 0.0
     return {'y': y, 'mo': mo, 'd': d, 'h': h, 'mi': mi, 's': s, 'ms': ms, 'off': off, 'lon': lon, 'lat': lat, 'dep': dep, 'mag': mag}
 
 
